@@ -406,9 +406,29 @@ func checkC18(c *Check) {
 			case *ast.KeyValueExpr:
 				if id, ok := s.Key.(*ast.Ident); ok && id.Name == "EnhancedCode" {
 					n++
-					v := c16Evaluator(c.P, ti)(s.Value, nil)
-					if v.K != absConst || v.N == 0 {
+					// the default may be chosen into a local first: every value that local is ever given
+					vals := []ast.Expr{s.Value}
+					if lv, ok := objOf(ti, s.Value).(*types.Var); ok && !lv.IsField() && posIn(ts.FI.Decl.Body, lv.Pos()) {
+						vals = nil
+						ast.Inspect(ts.FI.Decl.Body, func(y ast.Node) bool {
+							if as, ok := y.(*ast.AssignStmt); ok && len(as.Lhs) == len(as.Rhs) {
+								for k, l := range as.Lhs {
+									if objOf(ti, l) == lv {
+										vals = append(vals, as.Rhs[k])
+									}
+								}
+							}
+							return true
+						})
+					}
+					if len(vals) == 0 {
 						bad = "default enhanced status is unset or not constant"
+					}
+					for _, ve := range vals {
+						v := c16Evaluator(c.P, ti)(ve, nil)
+						if v.K != absConst || v.N == 0 {
+							bad = "default enhanced status is unset or not constant"
+						}
 					}
 				}
 			case *ast.AssignStmt:
